@@ -267,8 +267,13 @@ MANIFEST = {
     "text": ("Proof: Lean 4 theorems C01_window / C01_share / C01_zero_never / C01_selects_positive / C01_after_any_history / C01_concurrent "
              "hold for every weight vector, every window offset, every prior history and every caller interleaving of the model RR.next "
              "(orbit + periodicity argument, no bound on sizes). The model is tied to roundrobin/rr.go by a differential run of the real "
-             "RoundRobin and the compiled model on generated op sequences (thorough: all weight vectors n<=4,w<=6)."),
+             "RoundRobin and the compiled model on generated op sequences (thorough: all weight vectors n<=4,w<=6). UpsertServer with several "
+             "Weight options, incl. the call that fails half-way (weights written, iterator not reset), is modelled (C01_upsert_options, "
+             "C01_failed_upsert_weight, C01_nextFrom_eq_next)."),
     "note": ("Trusted: Lean kernel; propext/Classical.choice/Quot.sound; the hand-written model is validated against the code only on the "
-             "generated scenarios; each NextServer call is assumed atomic (mutex held for the whole body: C09 lock facts); weights below 2^31."),
+             "generated scenarios; each NextServer call is assumed atomic (mutex held for the whole body: C09 lock facts); weights below 2^31. "
+             "Partial in one corner: C01_after_any_history covers histories whose pool changes succeed; for the selections after a half-failed "
+             "multi-option UpsertServer (pool changed without reset) the window law is checked by the monitor on every run and by a "
+             "small-scope sweep, not proved (DESIGN §6 C01)."),
     "technique": "Lean 4 proof (orbit/periodicity induction) over executable model + differential correspondence with roundrobin.RoundRobin",
 }
